@@ -149,7 +149,9 @@ META = {
     "functions": ["system.System.batt_life", "system.System.solve/rail_rep/params/limits/phases/tree/save", "system.System._rel_update/_set_phase_lkup"],
     "bounds": "K = 2 (quick) / 4 (thorough) deplete calls, failure at every call index <= K, solver failure at every solve index <= K; analysis "
               "sequences: all pairs (quick) / all triples of distinct analyses (thorough) on 3 shapes",
-    "outside": "plot_interp, make_diag, make_hdiag (matplotlib / Graphviz take concrete data only): their read-only sub-claim is not decided",
+    "outside": "plot_interp, make_diag, make_hdiag take concrete data only: for them the read-only claim is decided on ONE concrete system "
+               "(tables, rails, groups, phases, limits) over all solver-chosen sequences of 2 (quick) / 3 (thorough) of the 13 analysis calls - an "
+               "enumeration, not a symbolic result",
     "assumptions": ["floats as reals", "inner solves abstracted to exact fixed points (as C18)"],
 }
 
@@ -183,3 +185,90 @@ def instances(tier):
         for q in seqs:
             out.append(Instance("C17", "c17:e_readonly", dict(shape=sh, seq=q), name="RO/%s/%s" % (sid, "+".join(q)), uf=True, cover=["ran"], weight=5))
     return out, META
+
+
+# ---------------------------------------------------------------------------------------------------
+def h_all_analyses(ctx, n=2):
+    """ALL eleven analyses of the statement - including plot_interp, make_diag, make_hdiag, which only take concrete data -
+    on a concrete system (tables, rails, groups, phases, limits): the sequence of n analyses is a solver choice; the state
+    snapshot must be unchanged after every call, solve() identical before/after, the caller's config dict untouched."""
+    import copy
+    import os
+    import tempfile
+    import warnings
+    import matplotlib
+
+    matplotlib.use("Agg")
+    import matplotlib.pyplot as plt
+    import sysloss.components as C
+    import sysloss.system as Sm
+    from sysloss.system import System
+    from sysloss import diagram
+    from .. import hist
+
+    s = System("ro", C.Source("BAT", vo=7.2, rs=0.1, limits={"io": [0.0, 2.0]}), rail="VBAT", group="power")
+    s.add_comp("BAT", comp=C.Converter("BUCK", vo=3.3, eff={"vi": [5.0, 9.0], "io": [0.01, 0.1, 0.5], "eff": [[0.7, 0.85, 0.9], [0.65, 0.8, 0.88]]},
+                                         iq=1e-4, iis=1e-6, rt=20.0), rail="3V3", group="power")
+    s.add_comp("3V3", comp=C.LinReg("LDO", vo=1.8, vdrop=0.2, ig={"vi": [3.3], "io": [0.0, 0.1], "ig": [[1e-5, 1e-4]]}), group="digital")
+    s.add_comp("LDO", comp=C.PLoad("MCU", pwr=0.05, pwrs=1e-4, rt=40.0, limits={"tp": [-40.0, 85.0]}), group="digital")
+    s.add_comp("BUCK", comp=C.ILoad("RADIO", ii=0.1, iis=1e-5, loss=True))
+    s.add_comp("VBAT", comp=C.VLoss("DIODE", vdrop=0.3))
+    s.add_comp("DIODE", comp=C.RLoad("LED", rs=500.0))
+    phases = {"sleep": 100.0, "run": 5.0}
+    s.set_sys_phases(phases)
+    s.set_comp_phases("BUCK", ["run"])
+    mcu_conf = {"run": 0.06}
+    s.set_comp_phases("MCU", mcu_conf)
+    conf = diagram.get_conf()
+    conf["node"]["Converter"] = {"fillcolor": "coral"}
+    conf0 = copy.deepcopy(conf)
+    tags = {"t": 1}
+    tmpd = tempfile.mkdtemp()
+
+    def batt():
+        k = [0]
+        return s.batt_life("BAT", cutoff=5.0, pfunc=lambda: (0.002, 7.2, 0.1), dfunc=lambda t, i: (0.002 - 0.0015 * (k.__setitem__(0, k[0] + 1) or k[0]), 7.0, 0.12))
+
+    def quiet_tree():
+        old = Sm.print
+        Sm.print = lambda *a, **k: None
+        try:
+            s.tree()
+        finally:
+            Sm.print = old
+
+    acts = {
+        "solve": lambda: s.solve(tags=tags), "solve_phase": lambda: s.solve(phase="run", energy=True, ta=40.0), "rail_rep": lambda: s.rail_rep(),
+        "params": lambda: s.params(limits=True), "limits": lambda: s.limits(), "phases": lambda: s.phases(), "tree": quiet_tree,
+        "save": lambda: s.save(os.path.join(tmpd, "s.json")), "plot_interp": lambda: (s.plot_interp("BUCK"), s.plot_interp("LDO"), plt.close("all")),
+        "plot_interp_3d": lambda: (s.plot_interp("BUCK", plot3d=True, inpdata=False), plt.close("all")),
+        "make_diag": lambda: diagram.make_diag(s, config=conf), "make_hdiag": lambda: diagram.make_hdiag(s, config=conf, group=False),
+        "batt_life": batt,
+    }
+    names = sorted(acts)
+    seq = [names[ctx.choice("a%d" % k, len(names))] for k in range(n)]
+    with warnings.catch_warnings():
+        warnings.simplefilter("ignore")
+        before = snap.snapshot(s)
+        first = snap.frame_by_name(s.solve())
+        for w in seq:
+            acts[w]()
+            snap.compare(ctx, before, snap.snapshot(s), "system-unchanged-by-analysis", key="mutated-by/%s" % w, info={"analysis": w, "sequence": seq})
+        last = snap.frame_by_name(s.solve())
+    ctx.cover("ran")
+    snap.compare(ctx, first, last, "solve-identical-after-interleaving", info={"sequence": seq})
+    ctx.check("caller-objects-unchanged", cond(conf == conf0 and tags == {"t": 1} and phases == {"sleep": 100.0, "run": 5.0} and mcu_conf == {"run": 0.06}),
+              info={"sequence": seq})
+    import shutil
+
+    shutil.rmtree(tmpd, ignore_errors=True)
+
+
+_old_instances17 = instances
+
+
+def instances(tier):
+    out, meta = _old_instances17(tier)
+    out.append(Instance("C17", "c17:h_all_analyses", dict(n=2 if tier == "quick" else 3), name="ALL/sequences-of-%d" % (2 if tier == "quick" else 3),
+                        cover=["ran"], weight=50, max_paths=5000, time_limit=3000))
+    return out, meta
